@@ -118,6 +118,21 @@ func Chain(init uint64) *Prog {
 	)
 }
 
+// EmptyMap: a mapper without skip_empty_output whose payload is empty on every other block, and a consumer whose only
+// input is that mapper: "present but empty" (the consumer runs) must not turn into "skipped" (it does not) when the
+// mapper's output comes from a cache file.
+func EmptyMap(init uint64) *Prog {
+	p := mk(fmt.Sprintf("emptymap-%d", init), map[string]*Body{
+		"e": {Emit: Expr{"when", []any(Every(2, 1)), []any(Cat(Lit("e@"), Num()))}},
+		"c": {Emit: Cat(Lit("c@"), Num(), Lit("="), In("e"))},
+	}, "c",
+		modgen.Map("e", init, modgen.Src()),
+		modgen.Map("c", init, modgen.MapIn("e")),
+	)
+	p.Outputs = []string{"e"}
+	return p
+}
+
 // Index2: two block-index modules computed by the same segment job, sharing the key name "k" on different blocks
 // (idxa: even blocks; idxb: blocks = 1 mod 3), and modules filtered on that key through each of them.
 func Index2() *Prog {
